@@ -107,7 +107,7 @@ with concurrent.futures.ThreadPoolExecutor(max_workers=workers) as ex:
 for i in range(workers):
     sh("git", "-C", "/repo", "worktree", "remove", "--force", "/tmp/rv/wt%d" % i)
 os.makedirs(os.path.join(V, "reports"), exist_ok=True)
-miss = open(os.path.join(V, "reports", "revert_misses.txt"), "w")
+miss = open(os.path.join(V, "reports", "revert_misses.txt"), "w")   # copy the non-skipped lines to seeded/R-MISSES.txt when committing
 kept = 0
 for commit, k, verdict, patch in allres:
     if verdict is None:
